@@ -14,7 +14,9 @@ Mutants (mutants/C15/*.diff; `./bin/mutant-run C15 mutants/C15/*.diff`, quick ti
   no_validation_ctx_reset      IGXMLScanner::scanReset without resetValidationContext()                 DETECTED (differs-from-fresh: duplicate ID / dangling IDREF)
   no_seqid_bump                IGXMLScanner::scanDocument without fSequenceId++                         DETECTED (stale-token-accepted, crash in parseNext)
   no_readermgr_reset_on_fatal  IGXMLScanner::scanDocument releases the ReaderMgr janitor on a first fatal DETECTED (differs-from-fresh after a malformed document)
-  cache_ignores_lock           XMLGrammarPoolImpl::cacheGrammar ignores fLocked                         see mutants/C15/RESULTS.txt
+  cache_ignores_lock           XMLGrammarPoolImpl::cacheGrammar ignores fLocked                         DETECTED
+  seeded/C15-a2                GrammarResolver::getGrammar consults fGrammarFromPool without the fUseCachedGrammar guard  see mutants/C15/RESULTS.txt
+                               (needs two grammars for one key: schema documents 11/12 name SB for urn:x, loadGrammar(X) caches SA)
 Not covered by a source mutant: fDTDElemNonDeclPool->removeAll() (no later dump depends on the undeclared-element pool; it is part of
 ResetEstablishesInit on the specification only - a scanReset hook (family H5) would be needed to bind it).
 Genuine defects of the pinned tree found by this check: known_findings.d/C15.json.
@@ -35,7 +37,7 @@ META = dict(
          "random histories of length 24 over 10 documents, are executed on real parser objects of all four APIs and four scanners; each parse "
          "is compared event by event with the same parse on a fresh parser.",
     note="Trusted: TLC, harness/common/parsedump.hpp (canonical dump), the document table of the harness rendering the specification's DocTab. "
-         "DTD grammars only (no XML Schema grammars, no PSVI); declaration events of the DOCTYPE are not compared when cached grammars are in use; "
+         "DTD grammars, plus one pair of XML Schema grammars for one namespace (cached versus inline; not cached from a parse; no PSVI); declaration events of the DOCTYPE are not compared when cached grammars are in use; "
          "state that cannot influence any later dump (undeclared-element pool, counters) is checked on the specification only.",
 )
 
@@ -45,7 +47,9 @@ CONSTS = {
     "quick": dict(check="ParserLifecycle.quick.cfg", exh="ParserLifecycleWalk.exh.cfg", sims=96, simdepth=25, combos=EXH_COMBOS),
     "thorough": dict(check="ParserLifecycle.thorough.cfg", exh="ParserLifecycleWalk.exh.cfg", sims=2400, simdepth=25, combos="all"),
 }
-NEG = [("ParserLifecycle.forget.cfg", "a reset line left out of ScanReset"), ("ParserLifecycle.ascoded.cfg", "stale readers after an abandoned progressive run")]
+NEG = [("ParserLifecycle.forget.cfg", "a reset line left out of ScanReset"), ("ParserLifecycle.ascoded.cfg", "stale readers after an abandoned progressive run"),
+       ("ParserLifecycle.useguard.cfg", "grammars referenced from the pool consulted without the useCachedGrammarInParse guard")]
+CACHE_COMBOS = "SAX2/IGXMLScanner,DOM/IGXMLScanner,DOMLS/IGXMLScanner"
 
 
 def _walks(out, cfg, exe, combos, simulate=None, depth=None, timeout=6000, nproc=8):
@@ -84,6 +88,11 @@ def run(out, tier):
     cov["spec_actions_never_taken"] = [a for a, v in acts.items() if v[0] == 0]
     if cov["spec_actions_never_taken"]:
         C.log("specification actions never taken in the exhaustive config:", cov["spec_actions_never_taken"])
+    # 1a. grammar lookup order over two different grammars for one key (schema documents 11, 12; loadGrammar X): bucket -> referenced-from-pool
+    #     only if useCached -> pool only if useCached
+    rc_ = C.tlc("ParserLifecycle", "ParserLifecycle.cache.cfg", workers=8, timeout=6000, heap="8g")
+    C.tlc_must_pass(rc_, "ParserLifecycle/ParserLifecycle.cache.cfg")
+    cov["spec_check_cache"] = rc_.summary()
     # 1b. the declarative layer is not vacuous: the mutated specifications must be refuted by TLC
     neg = {}
     for cfg, what in NEG:
@@ -94,6 +103,9 @@ def run(out, tier):
     cov["refuted_specification_mutants"] = neg
     # 2. W simulated: long random histories over the whole document pool, all 16 API x scanner combinations
     rs, cs, ps = _walks(out, "ParserLifecycleWalk.sim.cfg", exe, "all", simulate=max(1, k["sims"] // 8), depth=k["simdepth"] + 1)
+    # 2b. W directed: every history of length 6 over {parse(schema doc), setFeature(use / schema), loadGrammar(X)}: cached versus inline grammar
+    #     for the same key, before and after useCachedGrammarInParse is switched off again
+    rd_, cd, pd_ = _walks(out, "ParserLifecycleWalk.cache.cfg", exe, CACHE_COMBOS)
     # 3. W exhaustive: every history of the small configuration.  Skipped when stage 2 already found an unexplained
     #    disagreement (the verdict is VIOLATION either way; on the unchanged tree this stage always runs).
     known = C.load_known()
@@ -112,11 +124,12 @@ def run(out, tier):
         return d
     cov["W_exhaustive"] = dict(histories=pe.n, generator=re_.summary(), combos=k["combos"], **pick(ce)) if pe else dict(skipped="unexplained disagreement in the simulated stage")
     cov["W_simulated"] = dict(histories=ps.n, depth=k["simdepth"], **pick(cs))
-    cov["traces_validated_against_impl"] = ce.get("runs", 0) + cs.get("runs", 0)
+    cov["W_directed_cache"] = dict(histories=pd_.n, combos=CACHE_COMBOS, generator=rd_.summary(), **pick(cd))
+    cov["traces_validated_against_impl"] = ce.get("runs", 0) + cs.get("runs", 0) + cd.get("runs", 0)
     cov["samples"] = [C.decode_tlc_json(s) for s in (pe.samples[:2] if pe else [])] + [C.decode_tlc_json(s)[:6] for s in ps.samples[:1]]
     cov["exhaustive"] = True
-    cov["evaluations"] = ce.get("parses", 0) + cs.get("parses", 0) + ce.get("progressive_complete", 0) + cs.get("progressive_complete", 0)
-    cov["distinct_nontrivial"] = (pe.n if pe else 0) + ps.n
+    cov["evaluations"] = cd.get("parses", 0) + ce.get("parses", 0) + cs.get("parses", 0) + ce.get("progressive_complete", 0) + cs.get("progressive_complete", 0)
+    cov["distinct_nontrivial"] = (pe.n if pe else 0) + ps.n + pd_.n
     cov["rule"] = ("evaluations = parses of a reused parser compared event by event with a fresh parser; distinct = operation histories generated by TLC "
                    "(each executed on API x scanner combinations %s; simulated ones on all 16); non-trivial = the history contains at least one parse after another operation" % k["combos"])
     out.assumptions += ["constants of spec/%s, spec/%s and spec/ParserLifecycleWalk.sim.cfg" % (k["check"], k["exh"]),
